@@ -36,6 +36,10 @@ OBLIGATIONS = [
     "Grog.C17.recursive_name_exact",
     "Grog.C17.relative_matches_iff",
     "Grog.C17.pattern_shorthand",
+    "Grog.C17.root_recursive_name_exact",
+    "Grog.C17.parsePatterns_spec",
+    "Grog.C17.parsePatterns_matches_iff",
+    "Grog.C17.patternFromLabel_matches_iff",
 ]
 ASSUMPTIONS = [
     "errors of the Go parsers are compared only as ok / not ok",
@@ -306,6 +310,12 @@ def run(ctx):
                               {"kind": "oracle", "oracle": "printed labels re-parse (CLI)", "printed": r["s"], "reparse": x},
                               signature="printed-label-does-not-reparse:loader-accepted-name")
         ctx.coverage["oracle_cli_printed_labels"] = len(cli_labels)
+    # (7) pattern sets (ParsePatternsOrMatchAll, the function every command passes its arguments through): model correspondence,
+    #     and the oracle "the set matches exactly the union of what its canonical members match; no argument = everything"
+    oracle_fail += pattern_sets(ctx, bad)
+    # (8) the same through the real CLI: `grog list <patterns>` prints exactly the union; relative dependency labels in BUILD files
+    #     resolve against the package that declares them
+    oracle_fail += cli_patterns(ctx)
     ctx.coverage["oracle_roundtrips"] = len(rt_reqs)
     ctx.coverage["oracle_reference_patterns"] = ref_checked
     ctx.coverage["oracle_failures"] = oracle_fail
@@ -316,6 +326,174 @@ def run(ctx):
         ctx.violation("model and implementation disagree (correspondence label/pattern parser)",
                       {"kind": "correspondence", "correspondence": "label.parse / pattern.parse vs GrogModel.Label",
                        "request": strip(r), "impl": x, "model": y, "n_disagreements": len(bad)}, found_input=False)
+
+
+SET_POOL = ["//...", "//...:a", "//...:y", "//...:all", "//a/...", "//a/...:b", "//a:all", "//a:a", "//a", "//a/b", "//a/b:a", "//ab/...", "//x/y/...:z",
+            "//x/y:y", ":a", ":all", ":...", ":y", "//b/a/...", "//a/b/c:d", "//:a", "//...:...", "//a/b/...:all"]
+SET_BAD = ["//a:", "a", "//a/.../b", ":", "://", "//"]
+
+
+def ref_set_match(s_, pkg, name, cur):
+    """reference matcher extended by the documented shorthand //p = //p:base(p)"""
+    if s_.startswith("//") and ":" not in s_ and "..." not in s_ and not s_.endswith("/") and s_ != "//":
+        s_ = s_ + ":" + s_[2:].split("/")[-1]
+    return reference_match(s_, pkg, name, cur)
+
+
+def pattern_sets(ctx, bad):
+    rng = ctx.rng
+    quick = ctx.tier == "quick"
+    labs = labels_of(UNI)
+    sets = [[]] + [[p_] for p_ in SET_POOL] + [[p_, q_] for p_ in ["//...:a", "//...:y", "//a/...:b", "//...", ":a"] for q_ in SET_POOL[:12]]
+    for _ in range(400 if quick else 6000):
+        k = rng.randint(0, 4)
+        ss = [rng.choice(SET_POOL) for _ in range(k)]
+        if rng.random() < 0.12:
+            ss.insert(rng.randint(0, len(ss)), rng.choice(SET_BAD))
+        sets.append(ss)
+    curs = ["", "a", "x/y", "a/b"]
+    reqs = [{"op": "patterns.parse", "cur": cur, "ss": ss, "uni": UNI} for ss in sets for cur in (curs if any(not x.startswith("//") for x in ss) else curs[:1])]
+    lab_reqs = [{"op": "pattern.fromlabel", "pkg": p_, "name": n_, "uni": UNI} for p_, n_ in labs[::7]]
+    out = ctx.impl(reqs + lab_reqs)
+    if out is None:
+        return 0
+    mod = ctx.model(reqs + lab_reqs)
+    for r, x, y in zip(reqs + lab_reqs, out, mod):
+        if x != y:
+            bad.append((dict(r, s=" ".join(r.get("ss", [r.get("pkg", "") + ":" + r.get("name", "")]))), x, y))
+    ctx.coverage["evaluations"] += len(reqs) + len(lab_reqs)
+    ctx.coverage["traces_validated_against_impl"] += len(reqs) + len(lab_reqs)
+    fails = 0
+    checked = 0
+    for r, x in zip(reqs, out):
+        if "panic" in x or "error" in x:
+            ctx.violation("parser crashed or driver error", {"kind": "impl-crash", "request": strip(r), "impl": x}, signature="parser-crash")
+            continue
+        singles = [ref_set_match(s_, "", "q", r["cur"]) for s_ in r["ss"]]
+        bad_member = any(s_ in SET_BAD for s_ in r["ss"])
+        if bad_member != (not x.get("ok")):
+            fails += 1
+            ctx.violation("a pattern set is accepted although one argument is not a pattern (or rejected although every argument is one)",
+                          {"kind": "oracle", "oracle": "pattern set: error iff one argument fails to parse", "request": strip(r), "impl": x},
+                          signature="pattern-set-error-differs")
+            continue
+        if not x.get("ok") or any(v is None for v in singles):
+            continue
+        checked += 1
+        exp = [(not r["ss"]) or any(ref_set_match(s_, p_, n_, r["cur"]) for s_ in r["ss"]) for p_, n_ in labs]
+        got = [c == "1" for c in x["m"]]
+        if got != exp:
+            fails += 1
+            i = [k for k in range(len(labs)) if got[k] != exp[k]][0]
+            ctx.violation("a set of patterns matches a label that none of its patterns matches (or misses one that a pattern matches)",
+                          {"kind": "oracle", "oracle": "pattern set = union of its patterns (reference matcher)", "request": strip(r), "impl": x,
+                           "label": labs[i], "expected": exp[i]}, signature="pattern-set-differs-from-union")
+    for r, x in zip(lab_reqs, out[len(reqs):]):
+        exp = [(p_, n_) == (r["pkg"], r["name"]) for p_, n_ in labs]
+        if r["name"] in ("all", "...") or not isinstance(x, dict) or "m" not in x:
+            continue
+        if [c == "1" for c in x["m"]] != exp:
+            fails += 1
+            ctx.violation("the pattern made from a label matches something other than exactly that label",
+                          {"kind": "oracle", "oracle": "TargetPatternFromLabel matches exactly the label", "request": strip(r), "impl": x},
+                          signature="pattern-from-label-differs")
+    ctx.coverage["oracle_pattern_sets"] = checked
+    return fails
+
+
+def cli_patterns(ctx):
+    import json as _json, os, subprocess
+    grog = ctx.grog_binary()
+    if not grog:
+        return 0
+    rng = ctx.rng
+    base = ctx.scratch("pats")
+    ws = os.path.join(base, "ws")
+    pkgs = ["", "a", "a/b", "ab", "x/y", "x/y/z", "b/a"]
+    names = ["a", "b", "y", "z", "lib", "t"]
+    universe = []
+    for pk in pkgs:
+        d = os.path.join(ws, pk)
+        os.makedirs(d, exist_ok=True)
+        mine = [n_ for n_ in names if rng.random() < 0.7 or n_ in ("lib", "t")]
+        tg = [{"name": n_, "command": "true", **({"dependencies": [":lib"]} if n_ == "t" else {})} for n_ in mine]
+        dto = {"targets": tg, "aliases": [{"name": "al", "actual": ":lib"}]}
+        universe += [(pk, n_) for n_ in mine] + [(pk, "al")]
+        fmt = rng.choice(["json", "yaml"])
+        if fmt == "json":
+            open(os.path.join(d, "BUILD.json"), "w").write(_json.dumps(dto))
+        else:
+            lines = ["targets:"]
+            for t_ in tg:
+                lines += ["  - name: %s" % t_["name"], "    command: 'true'"] + (["    dependencies: [':lib']"] if "dependencies" in t_ else [])
+            lines += ["aliases:", "  - name: al", "    actual: ':lib'"]
+            open(os.path.join(d, "BUILD.yaml"), "w").write("\n".join(lines) + "\n")
+    open(os.path.join(ws, "grog.toml"), "w").write("")
+    env = {k: v for k, v in os.environ.items() if not k.startswith("GROG_")}
+    env.update({"GROG_ROOT": os.path.join(base, "root"), "HOME": os.path.join(base, "root"), "NO_COLOR": "1"})
+
+    def run(args, cwd):
+        try:
+            p = subprocess.run([grog] + args, cwd=os.path.join(ws, cwd), env=env, capture_output=True, text=True, timeout=60)
+        except subprocess.TimeoutExpired:
+            return None, ""
+        return p.returncode, p.stdout
+
+    fails = 0
+    sets = [["//...:lib"], ["//...:a"], ["//a/...:y", "//...:z"], ["//...:b", "//x/y:a"], [":a"], ["//a/..."], ["//..."], ["//a:all", "//...:y"], []]
+    for _ in range(10 if ctx.tier == "quick" else 60):
+        sets.append([rng.choice(SET_POOL) for _ in range(rng.randint(1, 3))])
+    n = 0
+    for ss in sets:
+        cur = rng.choice(["", "a", "x/y"]) if any(not s_.startswith("//") for s_ in ss) or not ss else ""
+        rc, outp = run(["list"] + ss, cur)
+        if rc is None:
+            continue
+        got = sorted(l for l in outp.split("\n") if l.startswith("//"))
+        if not ss:
+            # `grog list` without arguments lists the current package
+            exp = sorted("//%s:%s" % (p_, n_) for p_, n_ in universe if p_ == cur)
+        else:
+            if any(ref_set_match(s_, "", "q", cur) is None for s_ in ss):
+                continue
+            exp = sorted("//%s:%s" % (p_, n_) for p_, n_ in universe if any(ref_set_match(s_, p_, n_, cur) for s_ in ss))
+        n += 1
+        if rc != 0 and exp:
+            continue      # e.g. a flag-like argument; not this oracle's business
+        if got != exp and rc == 0:
+            fails += 1
+            ctx.violation("`grog list <patterns>` prints a set of labels different from the union of what the patterns denote",
+                          {"kind": "oracle", "oracle": "CLI: list = union of pattern matches (reference matcher)", "patterns": ss, "current_package": cur,
+                           "workspace_labels": ["//%s:%s" % u for u in universe], "printed": got, "expected": exp,
+                           "unexpected": [l for l in got if l not in exp][:5], "missing": [l for l in exp if l not in got][:5]},
+                          signature="cli-list-differs-from-union")
+            break
+    # relative dependency labels and alias targets resolve against the declaring package
+    nd = 0
+    for pk in pkgs:
+        rc, outp = run(["deps", "//%s:t" % pk], "")
+        if rc != 0:
+            continue
+        nd += 1
+        got = sorted(l for l in outp.split("\n") if l.startswith("//"))
+        if got != ["//%s:lib" % pk]:
+            fails += 1
+            ctx.violation("a relative dependency label in a BUILD file does not resolve against the package that declares it",
+                          {"kind": "oracle", "oracle": "CLI: `:x` in dependencies resolves against the current package", "target": "//%s:t" % pk,
+                           "declared_dependency": ":lib", "deps_printed": got, "expected": ["//%s:lib" % pk]},
+                          signature="relative-dependency-wrong-package")
+            break
+        rc, outp = run(["deps", "//%s:al" % pk], "")
+        got = sorted(l for l in outp.split("\n") if l.startswith("//"))
+        if rc == 0 and got != ["//%s:lib" % pk]:
+            fails += 1
+            ctx.violation("a relative `actual` label of an alias does not resolve against the package that declares it",
+                          {"kind": "oracle", "oracle": "CLI: `:x` in alias.actual resolves against the current package", "alias": "//%s:al" % pk,
+                           "deps_printed": got, "expected": ["//%s:lib" % pk]}, signature="relative-dependency-wrong-package")
+            break
+    ctx.coverage["oracle_cli_pattern_sets"] = n
+    ctx.coverage["oracle_cli_relative_deps"] = nd
+    return fails
 
 
 NAME_DICT = ["ok", "a-b_c.d", "A9", "a b", "x:y", "a/b", "...", "..", "é", "tab\tname", "-", "_", ".a", "a.", "all", "x" * 70, "q?", "star*", "semi;colon", "'q'", "a\\b", "test"]
